@@ -137,7 +137,10 @@ def disk_to_disk(center1, radius1, normal1, center2, radius2, normal2, epsilon=1
                     and np.linalg.norm(closest_to_both_disks - center2) < radius2):
                 return 0.0, closest_to_both_disks, closest_to_both_disks
         elif ell <= radius1 + radius2:  # both centers are on the common line
-            closest = 0.5 * (center1 + center2)
+            # common point on the segment between the centers that belongs to
+            # both disks (the midpoint does not for different radii)
+            closest = center1 + max(0.0, ell - radius2) * norm_vector(
+                center2 - center1)
             return 0.0, closest, closest
 
     # (2) no contact: simple iterative procedure
